@@ -410,8 +410,16 @@ def analyse(rep, f, c, rule, fn, counter_expected=True, hybrid=False):
     counters = [i for i, l in enumerate(b.locals) if l['ty'] == 'usize' and i > b.arg_count and len(b.defs.get(i, [])) >= 2
                 and any(k == 'assign' and nd['rv'].get('use', {}).get('const', {}).get('int') == 0 for (_, _, k, nd) in b.defs[i])]
     counters = [ctr for ctr in counters if counter_increments(b, ctr)]
+    enum_mode = False
+    if counter_expected and not counters:
+        # no accumulator: positions may be computed from the enumerate() index of the current element instead
+        k_ = account_enumerate(rep, f, c, rule, fn, b, K)
+        if k_:
+            enum_mode = True
+            n += k_
     if counter_expected:
-        rep.ob(rule + '.K3.counter', fn, len(counters) == 1, 'expected exactly one position counter (usize, starts at 0, incremented in the loops), found %d' % len(counters), site, None, c)
+        rep.ob(rule + '.K3.counter', fn, len(counters) == 1 or enum_mode,
+               'expected exactly one position counter (usize, starts at 0, incremented in the loops), found %d, and the positions are not computed from enumerate() indices either' % len(counters), site, None, c)
     if len(counters) == 1:
         ctr = counters[0]
         n += account(rep, f, c, rule, fn, b, K, ctr, sig_leaves, loops_of, hybrid)
@@ -613,6 +621,94 @@ def account(rep, f, c, rule, fn, b, K, ctr, sig_leaves, loops_of, hybrid=False):
         if hybrid and what == 'other':
             continue      # the index-driven part of a hybrid scanner moves the cursor itself: decided by R-SCAN
         rep.ob(rule + '.K3.assign', '%s:%s:%s' % (fn, cname, what), ok, 'the position counter is assigned outside the part loops in an unrecognised way', sp_str(nd['sp']), None, c)
+    return n
+
+
+def account_enumerate(rep, f, c, rule, fn, b, K):
+    """K3 for kernels that keep no running counter: every loop over a source part walks `part.iter().enumerate()` and an offending
+    unit is reported at  start(part) + index * (element width) [+ the position the stride function reported inside the element],
+    where index is the enumerate() counter of the current element (core semantics: the number of elements before it) and
+    start(strides) = 0, start(tail) = strides.len() * STRIDE.  Returns the number of obligations, 0 if the kernel is not of this form."""
+    heads = set(loop_heads(b))
+    loops = []
+    for lp in K.loops:
+        if not lp['parts']:
+            continue
+        root = root_of(lp['parts'][0])
+        ty = b.locals[root[1]]['ty']
+        if '&mut' in ty:
+            continue
+        if not (lp['res'][1] or '').startswith('<core::iter::Enumerate<'):
+            return 0
+        hs = [h for h in heads if h in b.dom[lp['bb']] or h == lp['bb']]
+        if not hs:
+            return 0
+        loops.append((max(hs, key=lambda x: len(b.dom[x])), lp))
+    if not loops:
+        return 0
+    n = 0
+    r = Resolver(b)
+
+    def expand_terms(e):
+        terms, k = add_terms(fold(e))
+        out = []
+        for t in terms:
+            if t[0] == 'init' and b.single_def(t[1]) is not None:
+                t2, k2 = expand_terms(r.local(t[1]))
+                out += list(t2)
+                k += k2
+            else:
+                out.append(t)
+        return out, k
+
+    def is_mul(t, pred, cst):
+        return t[0] == 'bin' and t[1] == 'Mul' and ((pred(t[2]) and t[3][0] == 'c' and t[3][1] == cst) or (pred(t[3]) and t[2][0] == 'c' and t[2][1] == cst))
+
+    for h, lp in sorted(loops, key=lambda x: x[0]):
+        L = lp['parts'][0]
+        units = lp['units']
+        is_idx = lambda e: e[0] == 'fld' and e[2] == '0' and e[1][0] == 'fld' and e[1][2] == '0' and e[1][1][0] == 'as' and e[1][1][2] == 'Some' and \
+            e[1][1][1][0] == 'call' and len(e[1][1][1]) == 4 and e[1][1][1][3] == lp['bb']
+        # start of the part
+        if L[0] == 'chunks' and L[2] == 0 and L[1][0] in ('arg', 'prefix'):
+            start_ok = lambda t: False
+            need_start = 0
+        elif L[0] == 'chunks' and L[2] == 1:
+            sib = [x for _, x in loops if x['parts'][0] == ('chunks', L[1], 0)]
+            stride = sib[0]['units'] if sib else None
+            start_ok = lambda t: stride is not None and is_mul(t, lambda x: x[0] == 'len' and part_of(x[1]) == ('chunks', L[1], 0), stride)
+            need_start = 1
+        else:
+            return 0
+        nret = 0
+        for blks, end in enumerate_block_paths(b, h, stop=heads):
+            if end[0] != 'return':
+                continue
+            p = summarize(b, blks, end)
+            if not any(e[0] == 'cond' and isinstance(e[1], tuple) and e[1][0] == 'variant' and e[2] == 'Some' and e[3] == lp['sw'] for e in p.events):
+                continue
+            rv = p.env.get(0)
+            leaf = pos_component(rv, b) if rv is not None else None
+            if leaf is None:
+                continue
+            terms, k = expand_terms(leaf)
+            idx_t = [t for t in terms if (is_idx(t) if units == 1 else is_mul(t, is_idx, units))]
+            start_t = [t for t in terms if start_ok(t)]
+            pay_t = [t for t in terms if is_payload_of_elem_call(t, lp)]
+            ok = k == 0 and len(idx_t) == 1 and len(start_t) == need_start and len(pay_t) == (1 if units > 1 else 0) and \
+                len(terms) == 1 + need_start + (1 if units > 1 else 0)
+            n += 1
+            nret += 1
+            rep.ob(rule + '.K3.report', '%s:loop(%s):report' % (fn, part_str(L, b)), ok,
+                   'an offending unit in %s must be reported at %s(enumerate index of the element)%s%s; found %s' % (
+                       part_str(L, b), 'strides.len() * %s + ' % stride if need_start else '', ' * %d' % units if units > 1 else '',
+                       ' + the position the stride function returned' if units > 1 else '', expr_str(leaf, b)[:160]),
+                   sp_str(b.blocks[blks[-1]]['tsp']), {'mode': 'enumerate', 'element_units': units}, c)
+        if nret:
+            # the counterpart of K3.step: the index advances by one element per iteration by the semantics of Enumerate (trusted core)
+            n += 1
+            rep.ob(rule + '.K3.step', '%s:loop(%s):enumerate' % (fn, part_str(L, b)), True, '', sp_str(b.blocks[lp['bb']]['tsp']),
+                   {'mode': 'enumerate', 'element_units': units}, c)
     return n
 
 
